@@ -65,6 +65,11 @@ def vhdxCmd (st : St) : List String → String
     | some o, some l, .ok (some v) => Footprint.render (Footprint.vhdx v o l)
     | _, _, .error e => s!"err {e}"
     | _, _, _ => "bad-args"
+  | ["vhdx.openfp", id] =>
+    -- C13: what `VHDX.__init__` looks at (HvProofs/FootprintVhdxOpen.lean: vhdx_open_reads)
+    match st.file? id with
+    | some fh => Footprint.render (Footprint.vhdxOpen fh)
+    | none => "bad-args"
   | "vhdx.sectors" :: sector :: count :: ids =>
     match sector.toNat?, count.toNat?, vhdxChain st ids with
     | some s, some c, .ok (some v) => fmtRes (v.readSectors c s c)
